@@ -74,13 +74,15 @@ PROPS = {
         ],
     },
     "C04": {
-        "modules": ["Hannibal.Props.C04", "Hannibal.Props.C04Current"],
-        "theorems": ["Hannibal.C04_holds", "Hannibal.C04_current", "Hannibal.wellWired04_current"],
+        "modules": ["Hannibal.Props.C04", "Hannibal.Props.C04Current", "Hannibal.Props.C04Q", "Hannibal.Props.C04QCurrent"],
+        "theorems": ["Hannibal.C04_holds", "Hannibal.C04_current", "Hannibal.wellWired04_current",
+                     "Hannibal.C04q_holds", "Hannibal.C04q_current", "Hannibal.wellWired04q_current", "Hannibal.monC04q_step"],
         "cases": {"quick": {"C04": 1500}, "thorough": {"C04": 20000, "x:C04": 320, "C02": 3000, "C17": 3000}},
         "assumptions": COMMON_ASSUMPTIONS + [
-            "drain-barrier clauses (monC04q: sends acknowledged before the first stop request are handled; nothing "
-            "submitted after an accepted stop returned is handled and its call errs; graceful end by quiescence) "
-            "are judged on real traces only",
+            "the drain-barrier clauses (monC04q: sends acknowledged before the first stop request are handled; nothing "
+            "submitted after an accepted stop returned is handled and its call errs; graceful end by quiescence) are "
+            "theorem C04q_holds under WellWired05 and wf01 (message numbers / operation ids fresh: checked on every "
+            "real trace; witnesses c04qReuseMsg, c04qReuseOp, c04qHollow show each hypothesis is needed)",
         ],
     },
     "C17": {
@@ -107,7 +109,7 @@ PROPS = {
     "C01": {
         "modules": ["Hannibal.Props.C01", "Hannibal.Props.C01Current"],
         "theorems": ["Hannibal.C01_holds", "Hannibal.C01_current", "Hannibal.monC01_step"],
-        "cases": {"quick": {"C01": 1500}, "thorough": {"C01": 20000, "x:C01": 320, "C12": 3000, "C07": 3000}},
+        "cases": {"quick": {"C01": 1200, "C11": 600}, "thorough": {"C01": 20000, "x:C01": 320, "C11": 6000, "C12": 3000, "C07": 3000}},
         "assumptions": COMMON_ASSUMPTIONS + [
             "well-formedness hypothesis wf01 (message numbers and operation ids of the trace are fresh) - checked "
             "on every real trace by monWf01 in the same run; without it the model has runs the monitor rejects "
@@ -152,13 +154,15 @@ PROPS = {
         ],
     },
     "C05": {
-        "modules": ["Hannibal.Props.C05", "Hannibal.Props.C05Current"],
-        "theorems": ["Hannibal.C05_holds", "Hannibal.C05_current", "Hannibal.wellWired05_current"],
+        "modules": ["Hannibal.Props.C05", "Hannibal.Props.C05Current", "Hannibal.Props.C05Q", "Hannibal.Props.C05QCurrent"],
+        "theorems": ["Hannibal.C05_holds", "Hannibal.C05_current", "Hannibal.wellWired05_current",
+                     "Hannibal.C05q_holds", "Hannibal.C05q_current", "Hannibal.monC05q_orig"],
         "cases": {"quick": {"C05": 1500}, "thorough": {"C05": 20000, "x:C05": 320, "C15": 3000, "C13": 3000}},
         "assumptions": COMMON_ASSUMPTIONS + [
-            "'drains, then terminates gracefully once the last strong handle is gone' (monC05q: by quiescence every "
-            "acknowledged send was handled and the actor ended gracefully) is a liveness clause judged on real "
-            "quiescent traces only",
+            "'drains, then terminates gracefully once the last strong handle is gone' (monC05q) is proved for every run "
+            "with fresh operation ids (C05q_holds; opIdsFresh is checked on every real trace; witness c05qReuseWitness "
+            "shows it is needed): at a quiescent point with no strong holder, no stop, no failure the actor has "
+            "terminated gracefully and every acknowledged send was handled",
             "service registry, parent's child list and broker subscriptions as holders are multi-actor: they appear "
             "in single-actor traces as ordinary strong / weak handles held by the harness's registry and broker ops",
             "wiring hypothesis WellWired05 (strong kinds own both closures, weak kinds own nothing and must upgrade) "
